@@ -200,7 +200,7 @@ func c09Scenarios(tier string) []e1lib.Scenario {
 		if dev {
 			name += fmt.Sprintf(" deviations<=%d", bound)
 		}
-		out = append(out, e1lib.Scenario{Name: name, Root: func() { forkh.Scenario(c) }, Check: c09Check(c), Bound: bound, Deviations: dev, Sample: c, Sym: true, RealDone: done})
+		out = append(out, e1lib.Scenario{Name: name, Root: func() { forkh.Scenario(c) }, Check: c09Check(c), Bound: bound, Deviations: dev, Sample: c, Sym: !(c.Par == 2 && len(c.Input) <= 2 && !c.Cancel && c.Stop == -1), RealDone: done})
 	}
 	type pk struct{ par, k int }
 	sizes := []pk{{1, 0}, {1, 1}, {1, 2}, {1, 3}, {2, 0}, {2, 1}, {2, 2}, {2, 3}, {3, 1}, {3, 2}}
